@@ -51,13 +51,16 @@ class Canon:
     * comparison operands are ordered (`a > b` is printed as `b < a`), `!` over comparisons folded.
     """
 
-    def __init__(self, body, inline=True, max_depth=8, force=False):
+    def __init__(self, body, inline=True, max_depth=8, force=False, inline_state=False):
         """force=True: provenance mode — every let-bound local (also `mut` ones) is replaced by its
         initialiser regardless of size; used to answer "where does this value come from"."""
         self.body = body
         self.inline = inline
         self.max_depth = max_depth
         self.force = force
+        # inline_state=True: also inline initialisers that read mutated state (only for rules that
+        # separately establish that the state is unchanged between the let and its uses)
+        self.inline_state = inline_state
         self.defs = {}     # lid -> ("let", init, pos, mutable) | ("param", idx)
         self.assigned = set()
         self._names = {}
@@ -67,25 +70,106 @@ class Canon:
             params = params[1:]
         for i, p in enumerate(params):
             self._bind_pat(p, ("param", i), "")
-        for n, _ in H.walk(body["body"]):
+        self.mutations = []   # (root lid, field names tuple, source position, node)
+        self.loops = []       # (lo, hi) spans of loops
+        self.parent = {}
+        for n, par in H.walk(body["body"]):
+            self.parent[id(n)] = par
             k = n.get("k")
             if k == "LetStmt" and n.get("init") is not None:
                 self._bind_pat(n["pat"], ("let", n["init"]), "")
             elif k == "Let":
                 self._bind_pat(n["pat"], ("let", n["init"]), "")
             elif k in ("Assign", "AssignOp"):
-                root, _names = field_chain(n["l"])
-                if root.get("k") == "Local":
-                    self.assigned.add(root["lid"])
+                self._mut(n["l"], n)
             elif k == "AddrOf" and n.get("mut"):
-                root, _names = field_chain(n["e"])
-                if root.get("k") == "Local":
-                    self.assigned.add(root["lid"])
+                self._mut(n["e"], n)
             elif k == "MethodCall":
-                # `x.push(..)` through auto-ref: the receiver adjusted to &mut
-                r = peel(n["recv"])
-                if r.get("k") == "Local" and "borrow" in (r.get("adj") or ()) and n.get("recv_ty", "").startswith("&mut"):
-                    self.assigned.add(r["lid"])
+                # `x.f.push(..)`: the receiver is (auto-)borrowed mutably -> x.f counts as mutated
+                if n.get("recv_ty", "").startswith("&mut"):
+                    self._mut(n["recv"], n)
+            if k in ("Loop", "While", "For"):
+                self.loops.append((n["sp"][0], n["sp"][1]))
+
+    def _mut(self, place, at):
+        p = peel(place)
+        while p.get("k") == "Index":
+            p = peel(p["e"])
+        root, names = field_chain(p)
+        while root.get("k") == "Index":
+            root, n2 = field_chain(root["e"])
+            names = n2
+        if root.get("k") == "Local":
+            self.assigned.add(root["lid"])
+            self.mutations.append((root["lid"], tuple(names), at["sp"][0], at))
+
+    def _mutated_between(self, init, let_pos, use=None):
+        """Can something `init` reads be mutated after the let and before the use?  Structural and
+        conservative: a mutation counts if it lies (by source position) between the let and the use and
+        is not in a branch exclusive with the use (sibling arm of an if/match), or if it lies in a loop
+        that contains the use but not the let.  Without a use position every later mutation counts.
+        Field-sensitive: `self.a` is not affected by a mutation of `self.b`."""
+        paths = set()
+        for x, par in H.walk(init):
+            if x.get("k") in ("Field", "Local"):
+                root, names = field_chain(x)
+                if root.get("k") == "Local":
+                    paths.add((root["lid"], tuple(names)))
+        paths = {(l, n_) for (l, n_) in paths
+                 if not any(l2 == l and len(n2) > len(n_) and n2[:len(n_)] == n_ for (l2, n2) in paths)}
+        use_pos = use["sp"][0] if (use is not None and use.get("sp")) else None
+        for lid, names, pos, mnode in self.mutations:
+            for rl, rn in paths:
+                if rl != lid:
+                    continue
+                k = min(len(rn), len(names))
+                if rn[:k] != names[:k]:
+                    continue
+                if use_pos is None:
+                    if pos > let_pos:
+                        return True
+                elif let_pos < pos < use_pos and not self._exclusive(mnode, use):
+                    return True
+                for lo, hi in self.loops:
+                    inside_use = (use_pos is None) or (lo <= use_pos <= hi)
+                    if inside_use and lo <= pos <= hi and not (lo <= let_pos <= hi):
+                        return True
+                    if use_pos is None and lo <= let_pos <= hi and lo <= pos <= hi:
+                        return True
+        return False
+
+    def _chain(self, n):
+        out = [n]
+        cur = self.parent.get(id(n))
+        while cur is not None:
+            out.append(cur)
+            cur = self.parent.get(id(cur))
+        return out
+
+    def _exclusive(self, a, b):
+        """a and b sit in different arms of the same if/match (never both evaluated in one pass)."""
+        ca = self._chain(a)
+        ids_b = {}
+        cb = self._chain(b)
+        for i, x in enumerate(cb):
+            ids_b[id(x)] = i
+        for i, x in enumerate(ca):
+            if id(x) in ids_b:
+                if i == 0 or ids_b[id(x)] == 0:
+                    return False
+                below_a, below_b = ca[i - 1], cb[ids_b[id(x)] - 1]
+                k = x.get("k")
+                if k == "If":
+                    arms = [x.get("then"), x.get("else")]
+                    return below_a is not below_b and below_a in arms and below_b in arms and \
+                        any(below_a is y for y in arms) and any(below_b is y for y in arms)
+                if k == "Match":
+                    bodies = [m["body"] for m in x["arms"]]
+                    ia = [j for j, y in enumerate(bodies) if y is below_a]
+                    ib = [j for j, y in enumerate(bodies) if y is below_b]
+                    return bool(ia) and bool(ib) and ia != ib
+                return False
+        return False
 
     def _bind_pat(self, p, src, pos):
         k = p["k"]
@@ -124,6 +208,7 @@ class Canon:
         for x, _ in H.walk(e):
             cnt += 1
             k = x.get("k")
+
             if cnt > 14 or k in ("Try", "Closure", "Match", "If", "Loop", "While", "For", "Block", "Assign", "AssignOp"):
                 return False
             if k == "MethodCall" and x["name"] not in self.PURE and x["args"]:
@@ -168,7 +253,9 @@ class Canon:
         stable = not d[3] and n["lid"] not in self.assigned
         if self.force and depth < self.max_depth:
             return self.c(d[1], depth + 1) + d[2]
-        if self.inline and stable and depth < self.max_depth and self._simple(d[1]):
+        if self.inline and stable and depth < self.max_depth and self._simple(d[1]) and \
+                (self.inline_state or not self._mutated_between(d[1], d[1]["sp"][1], n)):
+            # (a let whose initialiser reads state mutated before the use is a snapshot: not inlined)
             return self.c(d[1], depth + 1) + d[2]
         key = n["lid"]
         if key not in self._names:
@@ -335,11 +422,11 @@ def top_statements(body_node):
 class Index:
     """Parent links + path-condition extraction for one HIR body."""
 
-    def __init__(self, body):
+    def __init__(self, body, inline_state=False):
         self.body = body
         self.root = body["body"]
         self.parent = {}
-        self.canon = Canon(body)
+        self.canon = Canon(body, inline_state=inline_state)
         for n, p in H.walk(self.root):
             self.parent[id(n)] = p
 
